@@ -26,9 +26,10 @@ import (
 func TestMain(m *testing.M) { vt.Main(m) }
 
 type Step struct {
-	Kind   string `json:"kind"` // note detached finish after
+	Kind   string `json:"kind"` // note detached finish after duppair resupd
 	S      int    `json:"s"`
 	R      int    `json:"r"`
+	T      int    `json:"t,omitempty"` // resupd: the session whose subscribed resource is reported as updated
 	NoWait bool   `json:"nowait,omitempty"`
 }
 
@@ -61,9 +62,12 @@ func genScript(rt *rapid.T, race bool) Script {
 	}
 	n := rapid.IntRange(1, 40).Draw(rt, "n")
 	for i := 0; i < n; i++ {
-		st := Step{Kind: rapid.SampledFrom([]string{"note", "note", "note", "detached", "finish", "after", "duppair"}).Draw(rt, "kind")}
+		st := Step{Kind: rapid.SampledFrom([]string{"note", "note", "note", "detached", "finish", "after", "duppair", "resupd"}).Draw(rt, "kind")}
 		st.S = rapid.IntRange(0, s.Sessions-1).Draw(rt, "s")
 		st.R = rapid.IntRange(0, s.Calls[st.S]-1).Draw(rt, "r")
+		if st.Kind == "resupd" {
+			st.T = rapid.IntRange(0, s.Sessions-1).Draw(rt, "t")
+		}
 		if race {
 			st.NoWait = rapid.Bool().Draw(rt, "nowait")
 		}
@@ -72,7 +76,10 @@ func genScript(rt *rapid.T, race bool) Script {
 	return s
 }
 
-type cmd struct{ kind string }
+type cmd struct {
+	kind string
+	t    int
+}
 
 // slowStore delays Open by a virtual duration. (Append is called under the stream mutex; sleeping there
 // would park mutex waiters, which synctest cannot treat as durably blocked.)
@@ -119,7 +126,13 @@ func runInBubble(s Script) (res vt.Result) {
 		return chans[tag]
 	}
 	seq := map[string]int{}
-	server := mcp.NewServer(&mcp.Implementation{Name: "srv", Version: "1"}, nil)
+	server := mcp.NewServer(&mcp.Implementation{Name: "srv", Version: "1"}, &mcp.ServerOptions{
+		SubscribeHandler:   func(context.Context, *mcp.SubscribeRequest) error { return nil },
+		UnsubscribeHandler: func(context.Context, *mcp.UnsubscribeRequest) error { return nil },
+	})
+	server.AddResource(&mcp.Resource{URI: "file:///any", Name: "any"}, func(context.Context, *mcp.ReadResourceRequest) (*mcp.ReadResourceResult, error) {
+		return &mcp.ReadResourceResult{Contents: []*mcp.ResourceContents{{URI: "file:///any", Text: "x"}}}, nil
+	})
 	mcp.AddTool(server, &mcp.Tool{Name: "emit"}, func(ctx context.Context, req *mcp.CallToolRequest, a in) (*mcp.CallToolResult, any, error) {
 		note := func(c context.Context, kind string) {
 			mu.Lock()
@@ -135,6 +148,9 @@ func runInBubble(s Script) (res vt.Result) {
 				note(ctx, "inreq")
 			case "detached":
 				note(context.Background(), "detached")
+			case "resupd":
+				// a handler of one session reports a resource as updated, passing its own context along
+				server.ResourceUpdated(ctx, &mcp.ResourceUpdatedNotificationParams{URI: fmt.Sprintf("file:///s%d", c.t)})
 			case "finish":
 				// after the response: keep emitting with the request's values but an uncancelled context
 				late := context.WithoutCancel(ctx)
@@ -260,6 +276,7 @@ func runInBubble(s Script) (res vt.Result) {
 		if s.Standalone[i] {
 			standalone[i] = do("GET", "", sessionIDs[i])
 		}
+		do("POST", fmt.Sprintf(`{"jsonrpc":"2.0","id":"sub","method":"resources/subscribe","params":{"uri":"file:///s%d"}}`, i), sessionIDs[i])
 	}
 	var calls []*callRec
 	byKey := map[[2]int]*callRec{}
@@ -291,6 +308,7 @@ func runInBubble(s Script) (res vt.Result) {
 				Method string          `json:"method"`
 				Params struct {
 					Message string `json:"message"`
+					URI     string `json:"uri"`
 				} `json:"params"`
 				Result *struct {
 					Content []struct{ Text string } `json:"content"`
@@ -306,6 +324,10 @@ func runInBubble(s Script) (res vt.Result) {
 					f.tag = strings.TrimPrefix(m.Result.Content[0].Text, "done|")
 				}
 				out = append(out, f)
+				return
+			}
+			if m.Method == "notifications/resources/updated" {
+				out = append(out, found{tag: strings.TrimPrefix(m.Params.URI, "file:///"), kind: "resupd"})
 				return
 			}
 			parts := strings.Split(m.Params.Message, "|")
@@ -341,6 +363,10 @@ func runInBubble(s Script) (res vt.Result) {
 					}
 					continue
 				}
+				if f.kind == "resupd" {
+					res.Failf("step %d: a resource-updated notification for session %s (issued by another request's handler) travelled on the request exchange of %s", step, f.tag, c.tag)
+					continue
+				}
 				if f.tag != c.tag {
 					res.Failf("step %d: the exchange of %s carries a message tagged %s (%s)", step, c.tag, f.tag, f.kind)
 				}
@@ -365,6 +391,12 @@ func runInBubble(s Script) (res vt.Result) {
 			for _, f := range messagesOf(ex) {
 				if f.isResp {
 					res.Failf("step %d: the standalone stream of session %d carries a response (id %s)", step, i, f.respID)
+					continue
+				}
+				if f.kind == "resupd" {
+					if f.tag != fmt.Sprintf("s%d", i) {
+						res.Failf("step %d: the standalone stream of session %d carries a resource-updated notification for %s, which only that other session subscribed to", step, i, f.tag)
+					}
 					continue
 				}
 				if !strings.HasPrefix(f.tag, fmt.Sprintf("s%dr", i)) {
@@ -439,8 +471,11 @@ func runInBubble(s Script) (res vt.Result) {
 		if kind == "finish" {
 			c.finished = true
 		}
+		if kind == "resupd" && (c.finished || s.Stateless) {
+			continue
+		}
 		select {
-		case chanOf(c.tag) <- cmd{kind: kind}:
+		case chanOf(c.tag) <- cmd{kind: kind, t: st.T}:
 		default:
 		}
 		desc.WriteString(kind[:1])
